@@ -13,7 +13,7 @@ use serde_json::json;
 use tls_parser::nom;
 use tls_parser::*;
 
-pub const RULE: &str = "per enumerated field, a complete sweep of its domain (65536 values for u16 fields, 256 for u8 fields, 256x256 for alert level x description and hash x signature) inside an otherwise valid reference encoding, compared with the expected crate value by PartialEq; fields: record version (raw, encrypted, plaintext, DTLS), ClientHello / HelloRetryRequest / DTLS ClientHello / HelloVerifyRequest version, cipher id (ClientHello list, ServerHello, draft-18 hello, HelloRetryRequest, ESNI, DTLS ClientHello), named group (supported_groups, ECParameters, ESNI), signature-algorithm entries (extension, CertificateRequest), extension type, supported_versions entries, compression id (list, ServerHello), alert level x description (TLS, DTLS, and through TlsRecordsParser objects that have already seen ChangeCipherSpec / handshake / application-data / alert records), heartbeat message type, heartbeat extension mode, max-fragment-length code, SNI name type, certificate-status type (extension, CertificateStatus message), certificate types, PSK modes, EC point formats, CT version, KeyUpdate value, hash x signature algorithm, content type of raw / encrypted records and of the DTLS record header; and the same domains through the derive-generated entry points (parse, parse_be, parse_le) of the 18 code-point types themselves plus SignatureAndHashAlgorithm, TlsMessageAlert and TlsRecordHeader (SignatureScheme::parse_le, endianness-generic in the crate, is not judged). distinct_nontrivial = distinct (field, 1/64th slice of the domain) pairs swept";
+pub const RULE: &str = "per enumerated field, a complete sweep of its domain (65536 values for u16 fields, 256 for u8 fields, 256x256 for alert level x description and hash x signature) inside an otherwise valid reference encoding, compared with the expected crate value by PartialEq; fields: record version (raw, encrypted, plaintext, DTLS), ClientHello / HelloRetryRequest / DTLS ClientHello / HelloVerifyRequest version, cipher id (ClientHello list, ServerHello, draft-18 hello, HelloRetryRequest, ESNI, DTLS ClientHello), named group (supported_groups, ECParameters, ESNI), signature-algorithm entries (extension, CertificateRequest), extension type, supported_versions entries, compression id (list, ServerHello), alert level x description (TLS, DTLS, and through TlsRecordsParser objects that have already seen ChangeCipherSpec / handshake / application-data / alert records), heartbeat message type, heartbeat extension mode, max-fragment-length code, SNI name type, certificate-status type (extension, CertificateStatus message), certificate types, PSK modes, EC point formats, CT version, KeyUpdate value, hash x signature algorithm (parse_digitally_signed, and parse_content_and_signature at the signature length where the legacy reading is self-consistent), content type of raw / encrypted records and of the DTLS record header; and the same domains through the derive-generated entry points (parse, parse_be, parse_le) of the 18 code-point types themselves plus SignatureAndHashAlgorithm, TlsMessageAlert and TlsRecordHeader (SignatureScheme::parse_le, endianness-generic in the crate, is not judged). distinct_nontrivial = distinct (field, 1/64th slice of the domain) pairs swept";
 pub const ASSUMPTIONS: &[&str] = &["fields that select the structure (ServerHello version, handshake type, EC curve type, plaintext content type) are excluded by the statement"];
 
 /// one probe: `good` says the parse succeeded with exactly the expected value
@@ -391,6 +391,34 @@ pub fn run(ctx: &mut Ctx) {
         }
         ctx.evals(1024);
         ctx.shape(&("alert-hist", idx / 4));
+    });
+
+    // hash x signature code points through parse_content_and_signature with the negotiation flag set, at the
+    // signature length for which the legacy reading of the same bytes would also be self-consistent
+    // (length = hash << 8 | sign covers the rest of the input exactly), and at a fixed small length
+    ctx.floor("swept.content_and_signature.hash_x_sign", 65536 * 2 - 8);
+    ctx.sweep("content_and_signature.hash_x_sign", 256, |ctx, idx| {
+        let mut buf = vec![0x5au8; 6 + 4 + 65536];
+        buf[..6].copy_from_slice(&[0, 0, 0, 0, 0, 0]); // ServerDHParams with three empty fields
+        for s in 0..=255u8 {
+            let pair = ((idx as usize) << 8) | s as usize;
+            for dl in [pair.wrapping_sub(2), 5usize] {
+                if dl > 65535 {
+                    continue;
+                }
+                buf[6] = idx as u8;
+                buf[7] = s;
+                buf[8] = (dl >> 8) as u8;
+                buf[9] = dl as u8;
+                let input = &buf[..10 + dl];
+                let r = parse_content_and_signature(input, parse_dh_params, true);
+                let good = matches!(&r, Ok((rem, (_, sg))) if rem.is_empty() && sg.data.len() == dl && matches!(&sg.alg, Some(a) if a.hash.0 == idx as u8 && a.sign.0 == s));
+                probe(ctx, "content_and_signature.hash_x_sign", pair as u32, good, &input[..input.len().min(24)]);
+                ctx.add("swept.content_and_signature.hash_x_sign", 1);
+            }
+        }
+        ctx.evals(512);
+        ctx.shape(&("cas", idx / 4));
     });
 
     ctx.floor("swept.digitally_signed.hash_x_sign", 65536);
